@@ -63,6 +63,32 @@ M = [
   "            if !is_canceled {\n                self.failed.store(1, Ordering::Relaxed);", "            if !is_canceled || true {\n                self.failed.store(1, Ordering::Relaxed);", "C09", 20000),
  ("M22 barrier-ish: WaitGroup drop notifies only one waiter", "src/sync/wait_group.rs",
   "        if *count == 0 {\n            self.inner.cvar.notify_all();", "        if *count == 0 {\n            self.inner.cvar.notify_one();", "C11", 40000),
+ ("M24 panic: join triggered before the panic data is set", "src/coroutine_impl.rs",
+  "            if let Some(panic) = co.get_panic_data() {\n                join.set_panic_data(panic);\n            }\n            // trigger the join here\n            join.trigger();",
+  "            join.trigger();\n            if let Some(panic) = co.get_panic_data() {\n                join.set_panic_data(panic);\n            }", "C13", 60000),
+ ("M25 poison: a panicking guard drop does not poison (is_canceled check inverted)", "src/sync/poison.rs",
+  "            if !is_canceled {\n                self.failed.store(1, Ordering::Relaxed);", "            if is_canceled {\n                self.failed.store(1, Ordering::Relaxed);", "C13", 6000),
+ ("M26 rwlock: write guard does not record the poison", "src/sync/rwlock.rs",
+  "        self.__lock.poison.done(&self.__poison);\n        self.__lock.write_unlock();", "        self.__lock.write_unlock();", "C13", 6000),
+ ("M27 scope: child panic swallowed (no resume_unwind in join)", "src/scoped.rs",
+  "                res.unwrap_or_else(|e| panic::resume_unwind(e));", "                let _ = res;", "C13", 20000),
+ ("M28 cqueue: Finished without re-checking the queue", "src/cqueue.rs",
+  "                        match self.ev_queue.pop() {\n                            Some(mut ev) => run_ev!(ev),\n                            None => return Err(PollError::Finished),\n                        }",
+  "                        return Err(PollError::Finished);", "C16", 100000),
+ ("M29 cqueue: EventSender::drop decrements before pushing Done", "src/cqueue.rs",
+  "            kind: EventKind::Done,\n            co: None,\n        });\n        self.cqueue.cnt.fetch_sub(1, Ordering::Relaxed);",
+  "            kind: EventKind::Done,\n            co: None,\n        });", "C16", 20000),
+ ("M30 scope: cancel not disabled while joining", "src/scoped.rs",
+  "    if let Some(c) = cancel {\n        c.disable_cancel();\n    }\n    // a join re-raises", "    // a join re-raises", "C14", 20000),
+ ("M31 spawn: packet stored after the join is triggered", "src/coroutine_impl.rs",
+  "            their_packet.store(f());\n\n            their_join.trigger();", "            let r = f();\n            their_join.trigger();\n            their_packet.store(r);", "C01", 60000),
+ ("M32 cancel: stale coroutine para not consumed before the Cancel panic", "src/cancel.rs",
+  "            get_co_para();\n            // when in panic we use", "            // when in panic we use", "C15", 30000),
+ ("M33 local: coroutine-local data leaked (box forgotten in drop_coroutine)", "src/coroutine_impl.rs",
+  "        let local = unsafe { Box::from_raw(get_co_local(&co)) };\n        let name = local.get_co().name();\n",
+  "        let local = std::mem::ManuallyDrop::new(unsafe { Box::from_raw(get_co_local(&co)) });\n        let name = local.get_co().name();\n", "C15", 6000),
+ ("M34 sleep: the timeout result is not consumed after a sleep", "src/sleep.rs",
+  "    // consume the timeout error\n    get_co_para();", "    // consume the timeout error", "C15", 30000),
  ("M23 atomic_dur: truncating milliseconds again", "src/sync/atomic_dur.rs",
   "        let ms = d.as_nanos().div_ceil(1_000_000);", "        let ms = d.as_nanos() / 1_000_000;", "C08", 6000),
 ]
